@@ -334,8 +334,21 @@ func authzExpect(authz string) (status int, msg string) {
 		return 409, "authz-denied-409"
 	case "deny401":
 		return 401, "authz-denied-401"
+	case "denywrap":
+		// an error that wraps one carrying 409: the answer is 403 (the wrapper carries no status itself) or the wrapped
+		// status; what it says is not fixed
+		return 403, "*"
 	}
 	return 0, ""
+}
+
+// authzAnswerOK: the refusal answered for a denying authorizer.
+func authzAnswerOK(authz string, status int, msg string) bool {
+	st, want := authzExpect(authz)
+	if authz == "denywrap" {
+		return status == 403 || status == 409
+	}
+	return status == st && msg == want
 }
 
 func authzDenies(authz string) bool { return strings.HasPrefix(authz, "deny") }
